@@ -114,6 +114,7 @@ def d1(repo, rep):
         rep.ok("R-DEP", site + ":february", "February limit is 29 exactly when Epoch.is_leap(year)")
     else:
         rep.violation("R-DEP", site, "february", "the February limit does not depend on Epoch.is_leap(year)")
+    month_forms(repo, rep)
     # month names
     q = "Epoch.get_month"
     rep.fn(MOD, q)
@@ -169,6 +170,77 @@ def d1(repo, rep):
         rep.ok("R-DEP", "Epoch." + q, "Gregorian rule (calendar.isleap) from %d on, |year| %% 4 == 0 before" % thr)
     else:
         rep.violation("R-DEP", "Epoch." + q, "leap-rule", "leap rule is not: Gregorian 4/100/400 rule from 1582 on, divisibility by 4 before: " + T.show(t)[:140])
+
+
+def month_forms(repo, rep):
+    """R-FORMS: the day-of-month refusal must not depend on how the month was spelled.  _check_values is evaluated with the
+    month bound to each literal form (number, three-letter name, full name) of each of the 12 months; its ValueError
+    conditions - comparisons of the day with the month length, the leap test of the year - are then executed exactly for
+    the last day of the month and the day after it, in a leap and a common year of both calendars."""
+    from ..rules import eval_exact, NotEvaluable
+    from .c16 import stdlib_prims
+    rep.rule("R-FORMS", "the month-length refusal is the same for the month given as number, short name or long name "
+                        "(decision table: 12 months x 3 spellings x leap/common years of both calendars x last day / day after)")
+    q = "Epoch._check_values"
+    site = "Epoch." + q
+    fn = repo.func(MOD, q)
+    Y, D = T.sym("NUM_Y"), T.sym("NUM_D")
+    base = stdlib_prims(repo)
+    gm_cache = {}
+
+    def prims(t, env):
+        if t[0] == "call" and t[1] == "Epoch.Epoch.get_month" and len(t) >= 3 and t[2][0] in ("str", "num"):
+            key = t[2:]
+            if key not in gm_cache:
+                gfn = repo.func(MOD, "Epoch.get_month")
+                gn = [a.arg for a in gfn.args.args]
+                at = {gn[0]: t[2]}
+                if len(gn) > 1:
+                    at[gn[1]] = t[3] if len(t) > 3 and t[3][0] != "kw" else ("bool", False)
+                outs, _ = symx.eval_function(repo, MOD, "Epoch.get_month", arg_terms=at, unroll=16)
+                live = [o for o in outs if symx.fold_bool(o.cond) == ("bool", True)]
+                gm_cache[key] = live[0].value if len(live) == 1 and live[0].kind == "ret" else None
+            v = gm_cache[key]
+            if v is None:
+                raise NotEvaluable("get_month(%s) does not fold to one value" % (t[2],))
+            return eval_exact(v, env, prims)
+        return base(t, env)
+    abbr = list(calendar.month_abbr)
+    full = list(calendar.month_name)
+    years = (2000, 1900, -4712, 1001)
+    n = 0
+    bad = None
+    for m in range(1, 13):
+        for form, mv in (("number", T.num(m)), ("short name", ("str", abbr[m])), ("long name", ("str", full[m]))):
+            at = {"self": T.sym("self")}
+            if fn.args.vararg:
+                at[fn.args.vararg.arg] = ("tuple", Y, mv, D)
+            else:
+                names = [a.arg for a in fn.args.args if a.arg != "self"]
+                at.update(dict(zip(names, (Y, mv, D))))
+            outs = outcomes(repo, MOD, q, arg_terms=at)
+            for y in years:
+                leap = (y % 4 == 0) if y < 1583 else calendar.isleap(y)
+                mlen = calendar.mdays[m] + (1 if (m == 2 and leap) else 0)
+                for d in (mlen, mlen + 1):
+                    env = {Y: Fraction(y), D: Fraction(d)}
+                    try:
+                        hits = [o for o in outs if eval_exact(o.cond, env, prims)]
+                    except NotEvaluable as e:
+                        rep.inconcl("R-FORMS", site, "refusal conditions not executable for the month as %s: %s" % (form, e))
+                        return
+                    n += 1
+                    refused = any(o.kind == "raise" for o in hits)
+                    if refused != (d > mlen) and bad is None:
+                        bad = (y, mv[1] if mv[0] == "str" else m, d, form, refused)
+    rep.floor("(month spelling, year class, day) combinations executed", n, 250)
+    if bad:
+        y, mtxt, d, form, refused = bad
+        rep.violation("R-FORMS", site, "month-form:" + form,
+                      "with the month given as %s: (%d, %r, %d) is %s although the date %s" % (form, y, mtxt, d, "refused" if refused else "accepted",
+                                                                                               "exists" if refused else "does not exist"), obligation=True)
+    else:
+        rep.ok("R-FORMS", site, "month-length refusal identical for number / short name / long name on all %d combinations" % n, obligation=True)
 
 
 def d2(repo, rep):
